@@ -375,6 +375,35 @@ class HCoopLM(CoopMix, LightNodeMixin):
         self.name = name
 
 
+class TrackedList(list):
+    """What CopyMix stores instead of a plain list."""
+
+
+class CopyMix:
+    """Classes whose __setattr__ does not store the very object it is given: plain lists are kept as TrackedList COPIES
+    (change tracking, defensive copies). Whatever the mixins assign, they must read back what was actually stored."""
+
+    __slots__ = ()
+
+    def __setattr__(self, key, value):
+        object.__setattr__(self, key, TrackedList(value) if type(value) is list else value)
+
+
+class HCopyNM(CopyMix, HookMix, NodeMixin):
+    separator = "/"
+
+    def __init__(self, name):
+        self.name = name
+
+
+class HCopyLM(CopyMix, HookMix, LightNodeMixin):
+    __slots__ = ("name",)
+    separator = "/"
+
+    def __init__(self, name):
+        self.name = name
+
+
 class HArmNM(HookMix, NodeMixin):
     """A class whose pre-hooks ARM the matching post-hook on the instance (a one-shot callback carrying a snapshot taken
     before the change): the post-hook that is on the node when the step has been made is the one that runs. The class-level
@@ -558,6 +587,8 @@ CLASSES = {
     "LateSuperNM": (lambda l: _nodes.LateSuperNM(_name(l)), "NM", False),
     "LockNM": (lambda l: LockNM(_name(l)), "NM", False),
     "HArmNM": (lambda l: HArmNM(_name(l)), "NM", True),
+    "HCopyNM": (lambda l: HCopyNM(_name(l)), "NM", True),
+    "HCopyLM": (lambda l: HCopyLM(_name(l)), "LM", True),
     "HCoopNM": (lambda l: HCoopNM(_name(l)), "NM", True),
     "HCoopLM": (lambda l: HCoopLM(_name(l)), "LM", True),
     "HSealNM": (lambda l: HSealNM(_name(l)), "NM", True),
